@@ -102,3 +102,106 @@ func verifDigraphSized(n, E, mask int) {
 		}
 	}
 }
+
+// VerifDigraphChain (C03-U): two chained closures as in ComputeLALR, where the result of one
+// Digraph run is the base family of the next (Read = closure of DR under reads, Follow =
+// closure of Read under includes).  R1 has E1 edges, R2 has E2 edges (endpoints are solver
+// choices), base set sizes as in VerifDigraphSized.  Result sets of the first run may share
+// backing arrays (all members of a strongly connected component get one slice), and the
+// second run appends to them.
+func VerifDigraphChain(n, E1, E2, mask int) {
+	var X []int
+	for i := 0; i < n; i++ {
+		X = append(X, i)
+	}
+	mk := func(tag string, E int) ([]Relation, [][]bool) {
+		var R []Relation
+		adj := make([][]bool, n)
+		for i := range adj {
+			adj[i] = make([]bool, n)
+			adj[i][i] = true
+		}
+		for e := 0; e < E; e++ {
+			x := verifConc(verifPick(tag+"from", n))
+			y := verifConc(verifPick(tag+"to", n))
+			R = append(R, Relation{Index: e, x: x, y: y})
+			adj[x][y] = true
+		}
+		for k := 0; k < n; k++ {
+			for i := 0; i < n; i++ {
+				for j := 0; j < n; j++ {
+					if adj[i][k] && adj[k][j] {
+						adj[i][j] = true
+					}
+				}
+			}
+		}
+		return R, adj
+	}
+	R1, reach1 := mk("a", E1)
+	R2, reach2 := mk("b", E2)
+	Fp := map[int][]int{}
+	F1 := map[int][]int{}
+	F2 := map[int][]int{}
+	base := make([][]int, n)
+	for i := 0; i < n; i++ {
+		size := mask
+		for k := 0; k < i; k++ {
+			size /= 10
+		}
+		size %= 10
+		var b []int
+		for k := 0; k < size; k++ {
+			b = append(b, 100+10*i+k)
+		}
+		base[i] = b
+		Fp[i] = b
+		F1[i] = []int{}
+		F2[i] = []int{}
+	}
+	Digraph(X, R1, Fp, &F1)
+	Digraph(X, R2, F1, &F2)
+	cyc := false
+	for i := 0; i < n; i++ {
+		for j := 0; j < n; j++ {
+			if i != j && reach1[i][j] && reach1[j][i] {
+				cyc = true
+			}
+		}
+	}
+	verifAssume(!cyc)
+	cyc2 := false
+	for i := 0; i < n; i++ {
+		for j := 0; j < n; j++ {
+			if i != j && reach2[i][j] && reach2[j][i] {
+				cyc2 = true
+			}
+		}
+	}
+	if cyc2 {
+		verifCover("cycle in the second relation")
+	}
+	for i := 0; i < n; i++ {
+		for k := 0; k < n; k++ {
+			want := false
+			for j := 0; j < n; j++ {
+				if reach2[i][j] && reach1[j][k] {
+					want = true
+				}
+			}
+			for _, el := range base[k] {
+				has := false
+				for _, v := range F2[i] {
+					if v == el {
+						has = true
+					}
+				}
+				if want {
+					verifAssert(has, "C03: two chained Digraph runs lost an element of a reachable set")
+				} else {
+					verifAssert(!has, "C03: two chained Digraph runs added an element that is not reachable")
+				}
+			}
+		}
+	}
+}
